@@ -671,8 +671,11 @@ func budgetHistories(data []gen.DataSpec) []*hist.History {
 	for i := 1; i <= 5; i++ {
 		text += fmt.Sprintf(`{{define "m%d"}}%d`, i, i) + nest(17, fmt.Sprint(i)) + `{{end}}`
 	}
+	// ... and at a depth near the bound: a callee of 9997 levels, called four levels down
+	text += `{{define "deep"}}` + strings.Repeat("{{if $.NOPE}}", 9997) + "x{{$.S0}}" + strings.Repeat("{{end}}", 9997) + `{{end}}` +
+		`{{define "caller"}}<b>{{if $.C0}}{{if $.C0}}{{if $.C0}}{{if $.C0}}{{template "deep" .}}{{end}}{{end}}{{end}}{{end}}</b>{{end}}`
 	var out []*hist.History
-	for _, order := range [][]string{{"a", "small"}, {"b1", "b2", "a", "a", "small"}, {"b1", "a", "b2"}, {"m1", "m2", "m3", "m4", "m5", "small", "a"}, {"a", "b1", "m1", "m2", "m3", "small"}} {
+	for _, order := range [][]string{{"a", "small"}, {"b1", "b2", "a", "a", "small"}, {"b1", "a", "b2"}, {"m1", "m2", "m3", "m4", "m5", "small", "a"}, {"a", "b1", "m1", "m2", "m3", "small"}, {"deep", "caller", "small"}, {"caller", "deep", "caller"}} {
 		h := &hist.History{Data: data[:1], NVar: 2}
 		h.Ops = []hist.Op{{Kind: "new", H: -1, Dst: 0, Name: "root"}, {Kind: "parse", H: 0, Dst: 0, Text: text}}
 		for _, m := range order {
